@@ -86,6 +86,8 @@ def build(ps, P, names, order, shape, pbname="pb"):
                 ps.UnorderedTaskGroup(name=names["extra"], list_of_tasks=[a, s], time_interval_length=P.int("glen"))
             elif shape == "workload":
                 ps.WorkLoad(name=names["extra"], resource=W, dict_time_intervals_and_bound={(P.int("lo"), P.int("lo") + 5): P.int("bound")})
+                # a second one, on the other worker, over the same window
+                ps.WorkLoad(name=names["extra"] + "2", resource=V, dict_time_intervals_and_bound={(P.int("lo"), P.int("lo") + 5): P.int("bound2")})
             else:
                 ps.TasksDontOverlap(name=names["extra"], task_1=a, task_2=o)
 
@@ -117,6 +119,8 @@ SHAPES = ("plain", "select", "workload", "indicator", "distance", "distance2", "
 # names may be shared across kinds (each kind has its own registry): a constraint, an indicator or a worker
 # called like a task
 NAMES_3 = dict(a="a", o="o", s="s", W="a", V="o", prec="a", start="o", extra="s", ind="a")
+# collision-free names whose concatenations coincide: "L" + "_" + "1_x" == "L_1" + "_" + "x"
+NAMES_4 = dict(a="1_x", o="x", s="y", W="L", V="L_1", prec="p_1", start="p", extra="1", ind="L_1_x")
 
 
 def norm(name):
@@ -131,13 +135,17 @@ class RenamingInvariance(Contract):
     bounded = "problem family: 3 tasks, 2 workers, 3 constraints (+ selection / workload / indicators); all integers symbolic"
 
     def cases(self, tier):
-        return [dict(shape=s, to=t) for s in SHAPES for t in ("fresh names", "names shared across kinds")]
+        return [dict(shape=s, to=t) for s in SHAPES for t in ("fresh names", "names shared across kinds", "names whose concatenations coincide")]
 
     def scenario(self, ps, P, case):
         preconditions(P)
         pb1, s1, _ = build(ps, P, NAMES_1, ORDER_0, case["shape"])
-        pb2, s2, _ = build(ps, P, NAMES_2 if case["to"] == "fresh names" else NAMES_3, ORDER_0, case["shape"])
+        pb2, s2, _ = build(ps, P, self.target_names(case), ORDER_0, case["shape"])
         return dict(A1=asserted(s1), A2=asserted(s2))
+
+    @staticmethod
+    def target_names(case):
+        return {"fresh names": NAMES_2, "names shared across kinds": NAMES_3, "names whose concatenations coincide": NAMES_4}[case["to"]]
 
     def clauses(self, P, ctx, case):
         A1, A2 = ctx["A1"], ctx["A2"]
@@ -148,14 +156,17 @@ class RenamingInvariance(Contract):
         why = ""
         subs = []
         # the bijection on element names, applied to a constant's name token-wise
-        N2 = NAMES_2 if case["to"] == "fresh names" else NAMES_3
+        N2 = self.target_names(case)
         ren = {NAMES_1[k]: N2[k] for k in NAMES_1}
+        # names containing "_" cannot be recognised token-wise in a constant's name: there only the bijection
+        # between the two problems' unknowns (same number, formulas equal under the pairing) is required
+        by_shape = case["to"] != "names whose concatenations coincide"
         if ok:
             for x, y in zip(c1, c2):
                 n1, n2 = x.decl().name(), y.decl().name()
                 mapped = "_".join(ren.get(tok, tok) for tok in n1.split("_"))
                 mapped = re.sub(r"\(([^)]*)\)", lambda m: "(" + ren.get(m.group(1), m.group(1)) + ")", mapped)
-                if x.sort() != y.sort() or (norm(mapped) != norm(n2) and not ("!" in n1 and "!" in n2)):
+                if x.sort() != y.sort() or (by_shape and norm(mapped) != norm(n2) and not ("!" in n1 and "!" in n2)):
                     ok, why = False, f"{n1} -> {mapped} but the renamed problem uses {n2}"
                     break
                 subs.append((x, y))
